@@ -188,3 +188,84 @@ func TestVerifC01RegressionsEcho(t *testing.T) {
 		},
 	})
 }
+
+func TestVerifC07Exhaustive(t *testing.T) {
+	steps := 3
+	if vs.Tier() == "thorough" {
+		steps = 4
+	}
+	vs.RunExhaustive(t, "C07", 3_000_000, func(c *vs.Case) error {
+		return vw.PropC07(c, compositeFactory, vw.RolloutOpts{MaxChildren: 2, Steps: steps, Small: true, Deletes: vs.Tier() == "thorough"})
+	})
+}
+
+func TestVerifC07Random(t *testing.T) {
+	vs.Run(t, "C07", func(c *vs.Case) error {
+		return vw.PropC07(c, compositeFactory, vw.RolloutOpts{MaxChildren: 5, Steps: 3 + c.Int(5), Deletes: true, Lag: true, Scale: true})
+	})
+}
+
+func TestVerifC08Random(t *testing.T) {
+	vs.Run(t, "C08", func(c *vs.Case) error {
+		return vw.PropC08(c, compositeFactory, vw.RolloutOpts{MaxChildren: 6, Scale: true})
+	})
+}
+
+func TestVerifC08RegressionsScale(t *testing.T) {
+	vs.RunFixed(t, "C08", map[string]func() error{
+		// a child that was scaled away must not stay recorded in the latest revision: the next
+		// rollout would wait forever on "missing child" (or panic while it is still observed)
+		"rollout-with-scale-up-and-down-completes": func() error {
+			scn := vw.FixedScn("widgets", "RollingInPlace", nil, 1)
+			scn.Cfg.FieldPaths = []string{"spec.template"}
+			scn.Prog.Children[0].Replicated = true
+			scn.Parent["spec"].(map[string]any)["replicas"] = int64(3)
+			env, err := vw.NewEnv(scn, compositeFactory)
+			if err != nil {
+				return err
+			}
+			step := func() error {
+				env.MakeHealthy()
+				if tr := env.SyncFresh(); tr.Panic != "" {
+					return vs.Violf("C08/panic", "%s", tr.Panic)
+				}
+				return nil
+			}
+			setReplicas := func(n int64) {
+				env.W.Sim.ExtUpdate("things", "ns1", "p1", func(o map[string]any) { o["spec"].(map[string]any)["replicas"] = n })
+			}
+			setReplicas(2)
+			for i := 0; i < 3; i++ {
+				if err := step(); err != nil {
+					return err
+				}
+			}
+			// a rollout starts ...
+			env.W.Sim.ExtUpdate("things", "ns1", "p1", func(o map[string]any) {
+				o["spec"].(map[string]any)["template"].(map[string]any)["v"] = "v2"
+			})
+			if err := step(); err != nil {
+				return err
+			}
+			// ... the parent is scaled up (the new child is born on the latest revision) and down again
+			setReplicas(3)
+			if err := step(); err != nil {
+				return err
+			}
+			setReplicas(2)
+			for i := 0; i < 3*2+6; i++ {
+				if err := step(); err != nil {
+					return err
+				}
+			}
+			for _, n := range []string{"p1-w-0", "p1-w-1"} {
+				w := env.W.Sim.Get("widgets", "ns1", n)
+				if w == nil || w["spec"].(map[string]any)["v"] != "v2" {
+					st, _ := env.Parent()["status"].(map[string]any)
+					return vs.Violf("C08/rollout-stalled", "rollout with a scale-up and scale-down in between did not complete within 12 fair syncs: %s is %v; parent status %v", n, w["spec"], st)
+				}
+			}
+			return nil
+		},
+	})
+}
